@@ -148,6 +148,18 @@ func c10(c *Ctx) {
 			}
 		}
 		r.Check(nClient > 0, "C10.U2", fi.Name(), "client line arm found", c.P.Pos(fi.Node().Pos()), "ProcessMessage under case robust.IRCFromClient", "no ProcessMessage call under case robust.IRCFromClient")
+		// every marker update goes to the server instance handed in (the function is also the fold during compaction)
+		srvParam := paramOfType(fi, pathIrcsrv, "IRCServer")
+		for _, u := range callsIn(fi, isUpd) {
+			okRecv := false
+			if se, ok := ast.Unparen(u.Fun).(*ast.SelectorExpr); ok {
+				if id, ok := ast.Unparen(se.X).(*ast.Ident); ok && srvParam != nil && astx.Obj(info, id) == srvParam {
+					okRecv = true
+				}
+			}
+			r.Check(okRecv, "C10.U2", fi.Name(), "marker recorded on the server the entry is applied to", c.P.Pos(u.Pos()), "receiver is the *IRCServer parameter",
+				"the duplicate marker is recorded on a different server instance than the one the entry is applied to (e.g. the live global while folding into the snapshot state): the marker is missing from the snapshot and a restored node accepts the retry")
+		}
 		modArm := false
 		for _, u := range callsIn(fi, isUpd) {
 			if strings.HasSuffix(armOf(g.VertexOf(u)), "MessageOfDeath") {
